@@ -17,7 +17,7 @@ func init() {
 		Overrides: map[string]string{
 			"(" + goosePkg + ".errorReporter).printGo": goosePkg + ".verifStubPrintGo",
 		},
-		Harness:  hf,
+		Harness:   hf,
 		InitPkgs:  []string{"go/types"},
 		InitAllow: []string{"go/types"},
 		Entries: []Entry{
